@@ -39,7 +39,8 @@ def correspondence(pid, tier, seed):
         dist[name] = c['evaluations']
         parts.append(c)
     return dict(ok=not broken, evaluations=ev, nontrivial=nt, samples=parts[0]['samples'][:1], rule=RULE, distribution=dict(families=dist),
-                broken=broken, failing_cases=[h for c in parts for h in (c.get('failing_cases') or []) if isinstance(h, dict) and 'scenario' in h][:12])
+                broken=broken, failing_cases=([h for c in parts for h in (c.get('failing_cases') or []) if isinstance(h, dict) and 'scenario' in h][:12] +
+                               [h for c in parts for h in (c.get('failing_cases') or []) if isinstance(h, dict) and isinstance(h.get('case'), dict) and 'motor' in h['case']][:12]))
 
 
 # ------------------------------------------------------------------ metamorphic search
@@ -130,6 +131,40 @@ def search(pid, tier, seed, escalate, hints):
             d = derived_equal(r1['objects'], r2['objects'])
             if d:
                 out.append(W('derived', f'after re-expressing the inputs in other units: {d}'))
+        if len([w for w in out if w['cls'] != 'D5']) >= 5:
+            break
+    # the motor law alone: the same motor, speed and duty cycle with every quantity re-expressed (the motor cases on which the model and
+    # the code disagree first)
+    rng = random.Random(seed * 619 + 13)
+    mh = [h['case'] for h in (hints or []) if isinstance(h, dict) and isinstance(h.get('case'), dict) and 'motor' in h['case']]
+    mcases = [copy.deepcopy(c_) for c_ in mh for _ in range(3)]
+    for i in range(len(mcases) + (400 if tier == 'quick' else 4000)):
+        c1 = mcases[i] if i < len(mcases) else fam_motor.gen_case(rng)
+        c2 = walk(rng, copy.deepcopy(c1), cyc)
+        a, b = fam_motor.run_impl(c1), fam_motor.run_impl(c2)
+        k += 1
+        if a.get('skip') or b.get('skip'):
+            continue
+        m_ = O.motor_si(dict(motor=c1['motor']))
+        if m_['i0'] is not None and m_['imax'] is not None:
+            pmin = m_['i0'] / m_['imax']
+            if abs(abs(c1['pwm']) - pmin) <= 1e-9 * max(pmin, 1e-12):
+                continue                      # the dead-zone boundary within rounding
+        Wm = lambda what: dict(cls='motor', what=what, case=dict(case=c1, reexpressed=c2))  # noqa
+        if a.get('err') != b.get('err'):
+            out.append(Wm(f'motor law: {a.get("err") or "returns"} with the inputs as given, {b.get("err") or "returns"} after re-expressing them'))
+        elif a.get('err') is None:
+            ta, tb = a['T'][0] * S.ffactor('Torque', a['T'][1]), b['T'][0] * S.ffactor('Torque', b['T'][1])
+            w_ = abs(c1['spd'][1] * S.ffactor('AngularSpeed', c1['spd'][2]))
+            sc_t = m_['Tmax'] * (1 + w_ / m_['w0'])
+            if not O.close(ta, tb, 1e-9 * sc_t):
+                out.append(Wm(f'motor law: driving torque {ta!r} Nm with the inputs as given, {tb!r} Nm after re-expressing them in other units'))
+            elif (a['I'] is None) != (b['I'] is None):
+                out.append(Wm('motor law: a current is computed for one unit choice only'))
+            elif a['I'] is not None:
+                ia, ib = a['I'][0] * S.ffactor('Current', a['I'][1]), b['I'][0] * S.ffactor('Current', b['I'][1])
+                if not O.close(ia, ib, 1e-9 * m_['imax'] * (1 + w_ / m_['w0']) * (1 + 1 / max(abs(c1['pwm']), 1e-3))):
+                    out.append(Wm(f'motor law: current {ia!r} A with the inputs as given, {ib!r} A after re-expressing them in other units'))
         if len([w for w in out if w['cls'] != 'D5']) >= 5:
             break
     # constructors and relations: the same declaration history with re-expressed angles / lengths
@@ -349,6 +384,45 @@ def replay_known(pid, k):
 
 
 def replay(pid, path):
+    """re-executes the recorded pair (inputs as given / re-expressed) on /repo and compares again"""
     d = json.load(open(path))
-    print('replay: re-run the check; recorded witness:', json.dumps(d.get('witness'), default=str)[:800])
-    return 1
+    w = d.get('witness') or {}
+    case = w.get('case') or {}
+    found = None
+    if 'scenario' in case and 'reexpressed' in case:
+        sc, sc2 = case['scenario'], case['reexpressed']
+        r1, r2 = scen.run_impl(sc, keep_objects=True), scen.run_impl(sc2, keep_objects=True)
+        if (r1['err'] or None) != (r2['err'] or None):
+            found = f'original: {r1["err"] or "returns"}; re-expressed: {r2["err"] or "returns"}'
+        elif r1['err'] is None:
+            found = reach_witness(sc, r1, r2) or (None if threshold_fragile(sc, r1) or threshold_fragile(sc2, r2) else O.hist_equal(r1['rows'], r2['rows'], exact=False))
+            if not found and 'objects' in r1 and 'objects' in r2:
+                found = derived_equal(r1['objects'], r2['objects'])
+    elif isinstance(case.get('case'), dict) and 'motor' in case['case'] and 'reexpressed' in case:
+        a, b = fam_motor.run_impl(case['case']), fam_motor.run_impl(case['reexpressed'])
+        if a.get('err') != b.get('err'):
+            found = f'{a.get("err")} vs {b.get("err")}'
+        elif a.get('err') is None:
+            ta, tb = a['T'][0] * S.ffactor('Torque', a['T'][1]), b['T'][0] * S.ffactor('Torque', b['T'][1])
+            if not O.close(ta, tb, 1e-300, 1e-6):
+                found = f'driving torque {ta!r} vs {tb!r} Nm'
+            elif a['I'] is not None and b['I'] is not None:
+                ia, ib = a['I'][0] * S.ffactor('Current', a['I'][1]), b['I'][0] * S.ffactor('Current', b['I'][1])
+                if not O.close(ia, ib, 1e-300, 1e-6):
+                    found = f'current {ia!r} vs {ib!r} A'
+    elif 'elems' in case and 'reexpressed' in case and 'calls' in case:
+        a = fam_rel.run_impl(dict(elems=case['elems'], calls=case['calls']))
+        b = fam_rel.run_impl(dict(elems=case['reexpressed'], calls=case['calls']))
+        if not a.get('skip') and not b.get('skip'):
+            for j, (x, y) in enumerate(zip(a['calls'], b['calls'])):
+                if x['err'] != y['err'] or any(ox['drives'] != oy['drives'] or ox['lock'] != oy['lock'] for ox, oy in zip(x['state'], y['state'])):
+                    found = f'call {j}: outcome or link state differs'
+                    break
+    else:
+        print('replay: re-run the check; recorded witness:', json.dumps(w, default=str)[:800])
+        return 1
+    if found:
+        print('still fails:', found)
+        return 1
+    print('no longer fails on this pair of inputs')
+    return 0
